@@ -3,10 +3,10 @@ Classes of `isobar/pattern/core.py` and `PSequence`: step functions (each mirror
 `__next__`, sub-steps in the same order) and own-state resets.
 
 Register layouts
-  const      v = [value]
+  const      v0 = value
   ref        kids = [pattern]
-  seq        kids = items            n = [repeats (−1 = sys.maxsize), pos, rcount]
-  concat     kids = inputs           n = [pos]
+  seq        kids = items            n0 = repeats (−1 = sys.maxsize), n1 = pos, n2 = rcount
+  concat     kids = inputs           n0 = pos
   abs, int   kids = [input]
   binops     kids = [a, b]
   arrayIndex kids = index :: list items
@@ -15,48 +15,40 @@ import IsobarV.Pat.Num
 
 namespace IsobarV.Pat
 
-def stepConst : ClsStep := fun _ kids st => { out := .val (st.getV 0), kids := kids, st := st }
+def stepConst : ClsStep := fun _ kids st => { out := .val st.v0, kids := kids, st := st }
 
 /-- `PRef.__next__`: `next(self.pattern)`. -/
 def stepRef : ClsStep := fun rec kids st =>
-  let r := stepKid rec kids 0
-  { out := r.1, kids := r.2, st := st }
+  { out := (stepKid rec kids 0).1, kids := (stepKid rec kids 0).2, st := st }
 
 /-- `PSequence.__next__`. -/
 def stepSeq : ClsStep := fun rec kids st =>
-  let repeats := st.getN 0
-  let pos := (st.getN 1).toNat
-  let rcount := st.getN 2
-  if kids.length = 0 ∨ (0 ≤ repeats ∧ repeats ≤ rcount) then { out := .stop, kids := kids, st := st }
+  if kids.length = 0 ∨ (0 ≤ st.n0 ∧ st.n0 ≤ st.n2) then { out := .stop, kids := kids, st := st }
   else
-    let r := stepKid rec kids pos
-    match r.1 with
+    match (stepKid rec kids st.n1.toNat).1 with
     | .val v =>
-      if pos + 1 ≥ kids.length then
-        { out := .val v, kids := r.2, st := (st.setN 1 0).setN 2 (rcount + 1) }
-      else { out := .val v, kids := r.2, st := st.setN 1 (pos + 1) }
-    | o => { out := o, kids := r.2, st := st }
+      if st.n1.toNat + 1 ≥ kids.length then
+        { out := .val v, kids := (stepKid rec kids st.n1.toNat).2, st := { st with n1 := 0, n2 := st.n2 + 1 } }
+      else { out := .val v, kids := (stepKid rec kids st.n1.toNat).2, st := { st with n1 := st.n1.toNat + 1 } }
+    | o => { out := o, kids := (stepKid rec kids st.n1.toNat).2, st := st }
 
 /-- `a = Pattern.value(self.a); b = Pattern.value(self.b); return None if … else a <op> b`. -/
 def stepBin (f : Val → Val → Out) : ClsStep := fun rec kids st =>
-  let ra := stepKid rec kids 0
-  match ra.1 with
+  match (stepKid rec kids 0).1 with
   | .val a =>
-    let rb := stepKid rec ra.2 1
-    match rb.1 with
-    | .val b => { out := f a b, kids := rb.2, st := st }
-    | o => { out := o, kids := rb.2, st := st }      -- a consumed, b ended
-  | o => { out := o, kids := ra.2, st := st }
+    match (stepKid rec (stepKid rec kids 0).2 1).1 with
+    | .val b => { out := f a b, kids := (stepKid rec (stepKid rec kids 0).2 1).2, st := st }
+    | o => { out := o, kids := (stepKid rec (stepKid rec kids 0).2 1).2, st := st }      -- a consumed, b ended
+  | o => { out := o, kids := (stepKid rec kids 0).2, st := st }
 
 /-- `PAnd`: `True if a and b else False` (no None propagation). -/
 def andVal (a b : Val) : Out := .val (.a (.bool (a.truthy && b.truthy)))
 
 /-- One-input maps (`PAbs`, `PInt`). -/
 def stepUn (f : Val → Out) : ClsStep := fun rec kids st =>
-  let r := stepKid rec kids 0
-  match r.1 with
-  | .val a => { out := f a, kids := r.2, st := st }
-  | o => { out := o, kids := r.2, st := st }
+  match (stepKid rec kids 0).1 with
+  | .val a => { out := f a, kids := (stepKid rec kids 0).2, st := st }
+  | o => { out := o, kids := (stepKid rec kids 0).2, st := st }
 
 /-- `PConcatenate.__next__`: try the current input; on StopIteration move to the next one. -/
 def concatLoop (rec : Rec) : Nat → List Pat → Nat → Out × List Pat × Nat
@@ -72,8 +64,9 @@ def concatLoop (rec : Rec) : Nat → List Pat → Nat → Out × List Pat × Nat
       | o => (o, kids', pos)
 
 def stepConcat : ClsStep := fun rec kids st =>
-  let r := concatLoop rec (kids.length + 1) kids (st.getN 0).toNat
-  { out := r.1, kids := r.2.1, st := st.setN 0 r.2.2 }
+  { out := (concatLoop rec (kids.length + 1) kids st.n0.toNat).1,
+    kids := (concatLoop rec (kids.length + 1) kids st.n0.toNat).2.1,
+    st := { st with n0 := (concatLoop rec (kids.length + 1) kids st.n0.toNat).2.2 } }
 
 /-- Python list indexing with a possibly negative index. -/
 def pyIndex (len : Nat) (i : Int) : Option Nat :=
@@ -99,7 +92,7 @@ def stepArrayIndex : ClsStep := fun rec kids st =>
 
 /-! ### Own-state resets (what the class's `reset()` does beyond resetting its pattern attributes) -/
 
-def resetSeq (st : St) : St := (st.setN 1 0).setN 2 0
-def resetConcat (st : St) : St := st.setN 0 0
+def resetSeq (st : St) : St := { st with n1 := 0, n2 := 0 }
+def resetConcat (st : St) : St := { st with n0 := 0 }
 
 end IsobarV.Pat
